@@ -170,6 +170,20 @@ type aRegSpec struct {
 	Phantom  int    `json:"phantom"`
 	V6       bool   `json:"v6,omitempty"`
 	Covert   string `json:"covert,omitempty"`
+	// attributes a client / registrar controls that must not influence matching
+	Prescanned   bool `json:"prescanned,omitempty"`     // flags.prescanned set
+	OmitPrefixID bool `json:"omit_prefix_id,omitempty"` // prefix params present but without prefix_id (the station reads that as prefix 0)
+	Source       int  `json:"source,omitempty"`         // index into aSources
+}
+
+var aSources = []pb.RegistrationSource{pb.RegistrationSource_API, pb.RegistrationSource_Detector, pb.RegistrationSource_DetectorPrescan, pb.RegistrationSource_BidirectionalAPI, pb.RegistrationSource_DNS}
+
+// EffectivePrefix is the prefix id the station associates with the registration.
+func (s aRegSpec) EffectivePrefix() int32 {
+	if s.OmitPrefixID {
+		return 0
+	}
+	return s.PrefixID
 }
 
 // aMakeReg builds a registration object through the station's real ingest constructor, pinned to
@@ -178,7 +192,11 @@ func (e *aEnv) aMakeReg(s aRegSpec) (*cj.DecoyRegistration, error) {
 	tt := aTT[s.TT]
 	var m proto.Message
 	if tt == pb.TransportType_Prefix {
-		m = &pb.PrefixTransportParams{PrefixId: proto.Int32(s.PrefixID), RandomizeDstPort: proto.Bool(false)}
+		pp := &pb.PrefixTransportParams{PrefixId: proto.Int32(s.PrefixID), RandomizeDstPort: proto.Bool(false)}
+		if s.OmitPrefixID {
+			pp.PrefixId = nil
+		}
+		m = pp
 	} else {
 		m = &pb.GenericTransportParams{RandomizeDstPort: proto.Bool(false)}
 	}
@@ -200,6 +218,9 @@ func (e *aEnv) aMakeReg(s aRegSpec) (*cj.DecoyRegistration, error) {
 		TransportParams:     params,
 		Flags:               &pb.RegistrationFlags{},
 	}
+	if s.Prescanned {
+		c2s.Flags.Prescanned = proto.Bool(true)
+	}
 	rr := &pb.RegistrationResponse{}
 	ph := aPhantom(s.Phantom, s.V6)
 	if s.V6 {
@@ -210,7 +231,7 @@ func (e *aEnv) aMakeReg(s aRegSpec) (*cj.DecoyRegistration, error) {
 	w := &pb.C2SWrapper{
 		SharedSecret:         aSecret(s.Secret),
 		RegistrationPayload:  c2s,
-		RegistrationSource:   pb.RegistrationSource_API.Enum(),
+		RegistrationSource:   aSources[s.Source%len(aSources)].Enum(),
 		RegistrationAddress:  []byte(net.IPv4(198, 51, 100, 7).To4()),
 		RegistrationResponse: rr,
 	}
